@@ -58,7 +58,16 @@ def fstring_dfa(node, digits=r"[0-9]+", fn=None):
                     return None
             if isinstance(n, ast.Assign) and any(isinstance(t, ast.Tuple) and any(isinstance(e, ast.Name) and e.id == name
                                                                                 for e in t.elts) for t in n.targets):
-                return None
+                # (sign, offset) = ("-", -offset) if offset < zero else ("+", offset): element-wise
+                t = [t for t in n.targets if isinstance(t, ast.Tuple)][0]
+                idx = [i for i, e in enumerate(t.elts) if isinstance(e, ast.Name) and e.id == name][0]
+                alts = [n.value.body, n.value.orelse] if isinstance(n.value, ast.IfExp) else [n.value]
+                for a in alts:
+                    if isinstance(a, ast.Tuple) and len(a.elts) == len(t.elts) and isinstance(a.elts[idx], ast.Constant) \
+                            and isinstance(a.elts[idx].value, str):
+                        vals.append(a.elts[idx].value)
+                    else:
+                        return None
         return vals or None
     def name_exprs(name):
         """string-building expressions a name is assigned (all of its plain assignments), else None"""
